@@ -19,15 +19,6 @@ type tagMacroNode struct {
 
 func (node *tagMacroNode) Execute(ctx *ExecutionContext, writer TemplateWriter) *Error {
 	ctx.Private[node.name] = func(args ...*Value) (*Value, error) {
-		ctx.macroDepth++
-		defer func() {
-			ctx.macroDepth--
-		}()
-
-		if ctx.macroDepth > maxMacroDepth {
-			return nil, ctx.Error(fmt.Sprintf("maximum recursive macro call depth reached (max is %v)", maxMacroDepth), node.position)
-		}
-
 		return node.call(ctx, args...)
 	}
 
@@ -35,6 +26,17 @@ func (node *tagMacroNode) Execute(ctx *ExecutionContext, writer TemplateWriter) 
 }
 
 func (node *tagMacroNode) call(ctx *ExecutionContext, args ...*Value) (*Value, error) {
+	// Recursion guard. It lives here (and not in the function value registered by Execute)
+	// so that every way of calling a macro - locally defined or imported - is covered.
+	ctx.macroDepth++
+	defer func() {
+		ctx.macroDepth--
+	}()
+
+	if ctx.macroDepth > maxMacroDepth {
+		return nil, ctx.Error(fmt.Sprintf("maximum recursive macro call depth reached (max is %v)", maxMacroDepth), node.position)
+	}
+
 	argsCtx := make(Context)
 
 	for k, v := range node.args {
